@@ -180,14 +180,28 @@ func ruleLock13(c *Ctx, r *Reporter) {
 		if fn == nil {
 			continue
 		}
-		stores := false
-		allInstrs(fn, func(in ssa.Instruction) {
-			if st, ok := in.(*ssa.Store); ok {
-				if fa, ok := st.Addr.(*ssa.FieldAddr); ok && structFieldOf(fa) == catF {
-					stores = true
+		storesCat := func(g *ssa.Function) bool {
+			found := false
+			allInstrs(g, func(in ssa.Instruction) {
+				if st, ok := in.(*ssa.Store); ok {
+					if fa, ok := st.Addr.(*ssa.FieldAddr); ok && structFieldOf(fa) == catF {
+						found = true
+					}
 				}
-			}
-		})
+			})
+			return found
+		}
+		stores := storesCat(fn)
+		if !stores && len(fn.Params) > 0 {
+			// or hands its receiver to an unexported method that does
+			allInstrs(fn, func(in ssa.Instruction) {
+				if call, ok := in.(*ssa.Call); ok && len(call.Call.Args) > 0 && call.Call.Args[0] == ssa.Value(fn.Params[0]) {
+					if h := staticFn(&call.Call); h != nil && h != fn && h.Blocks != nil && h.Object() != nil && !h.Object().Exported() && storesCat(h) {
+						stores = true
+					}
+				}
+			})
+		}
 		if !stores {
 			continue
 		}
@@ -205,6 +219,20 @@ func ruleLock13(c *Ctx, r *Reporter) {
 		n++
 		key := funcName(fn) + ":base read under the write lock"
 		if lock == nil {
+			// an unexported method that every caller invokes with t.mutex held (the tail of a write method moved out):
+			// its reads happen inside the callers' critical sections
+			callers, complete := allCallers(fn)
+			held := complete && len(callers) > 0
+			ls := locksets(c)
+			for _, ci := range callers {
+				if !ls.mustHold(ci, "lungo.Transaction.mutex") || len(ci.Common().Args) == 0 || len(ci.Parent().Params) == 0 || ci.Common().Args[0] != ssa.Value(ci.Parent().Params[0]) {
+					held = false
+				}
+			}
+			if held {
+				r.ok(key, c.pos(fn.Pos()), fmt.Sprintf("unexported: all %d call sites hold the receiver's t.mutex", len(callers)))
+				continue
+			}
 			r.bad(key, c.pos(fn.Pos()), "the method stores t.catalog without taking t.mutex.Lock()")
 			continue
 		}
@@ -512,6 +540,19 @@ func ruleProj6(c *Ctx, r *Reporter) {
 		}
 		hdr := lexicalLoopHeader(mu.Block())
 		if hdr == nil {
+			// no loop: the element may be picked by the library's first-index search
+			var idx *ssa.Call
+			allInstrs(fn, func(x ssa.Instruction) {
+				if call, ok := x.(*ssa.Call); ok {
+					if f := calleeObj(&call.Call); f != nil && f.Pkg() != nil && f.Pkg().Path() == "slices" && f.Name() == "IndexFunc" {
+						idx = call
+					}
+				}
+			})
+			if idx != nil && dependsOn(mu.Value, idx, map[ssa.Value]bool{}) {
+				n++
+				r.ok("$elemMatch projection:first match wins", c.pos(mu.Pos()), "the stored element is the one at slices.IndexFunc's result, the first index the predicate holds for")
+			}
 			return
 		}
 		n++
@@ -694,7 +735,16 @@ func ruleLock12(c *Ctx, r *Reporter) {
 				return false
 			}
 			f := calleeObj(&call.Call)
-			return f == abortE || f == abortS || (f != nil && (f == commitE || f == commitS))
+			if f == abortE || f == abortS || (f != nil && (f == commitE || f == commitS)) {
+				return true
+			}
+			// a function that commits or aborts the transaction it is given on every path
+			for i := range call.Call.Args {
+				if derefNamed(call.Call.Args[i].Type()) != nil && derefNamed(call.Call.Args[i].Type()).Obj().Name() == "Transaction" && releasesTxnParam(staticFn(&call.Call), i, abortE, commitE, 0) {
+					return true
+				}
+			}
+			return false
 		}
 		openAt := map[ssa.Instruction]bool{}
 		seenB := map[*ssa.BasicBlock]bool{}
